@@ -119,6 +119,12 @@ def handle (fields : List String) : String :=
       withEnv rp1 pl1 im1 fun a => withEnv rp2 pl2 im2 fun b =>
         match compare a b with
         | .incompatible => "INCOMPATIBLE" | .lowerOrEqual => "LOWER_OR_EQUAL" | .higher => "HIGHER"
+  -- marker literals (C07): what `_quote` writes, what packaging reads
+  | ["q.quote", v] => enc (M.quoteS (dec v))
+  | ["q.read", t] =>
+      match Quote.readLiteral (dec t).toList with
+      | some (v, rest) => "ok\t" ++ enc (String.ofList v) ++ "\t" ++ enc (String.ofList rest)
+      | none => "none"
   -- markers (C02, C03, C07, C10, C11, C12, C13, C14, C15)
   | ["m.expr", e] => withExpr e fun x =>
       match x.run fuelA, x.run fuelB with
